@@ -39,6 +39,8 @@ type Gen struct {
 	extH        map[string]uint64
 	pair        [2]string // (event type, mutated field) of the hash pair being emitted
 	genesisMode bool
+	digests     []string
+	digestAt    []int
 }
 
 type tokSpec struct {
@@ -63,6 +65,15 @@ func (g *Gen) do(line string) string {
 	if w := strings.Fields(line); len(w) == 2 && w[0] == "chains" {
 		g.chains = strings.Split(w[1], ",")
 	}
+	defer func() {
+		if g.mon != nil && g.mon.prop == "C06" && g.env != nil && g.env.inited && !g.env.dead {
+			w := strings.Fields(line)
+			if len(w) > 0 && w[0] != "dump" && !strings.HasPrefix(w[0], "q_") {
+				g.digests = append(g.digests, g.env.StateDigest())
+				g.digestAt = append(g.digestAt, len(g.ops)-1)
+			}
+		}
+	}()
 	if g.mon != nil {
 		g.mon.Before(g, line)
 	}
@@ -506,6 +517,9 @@ func genMain(args []string) {
 		g := &Gen{rng: rand.New(rand.NewSource(*seed*1000003 + int64(h))), profile: *profile, stats: res.Stats}
 		g.mon = NewMonitor(*prop, h)
 		runProfile(g, *profile, *nops)
+		if *prop == "C06" {
+			checkDeterminism(g, res.Stats)
+		}
 		for i := range g.ops {
 			fmt.Fprintln(ow, g.ops[i])
 			fmt.Fprintln(iw, g.outs[i])
@@ -1353,4 +1367,33 @@ func (g *Gen) runStress(nops int) {
 		}
 	}
 	g.do("end")
+}
+
+// checkDeterminism replays the recorded history twice in fresh instances (Go randomises every map
+// iteration) and compares the state/event digest after every operation with the first run.
+func checkDeterminism(g *Gen, stats map[string]int) {
+	realOracle := g.env.useRealOracle
+	for rep := 0; rep < 2; rep++ {
+		env := NewEnv(realOracle)
+		k := 0
+		for i, line := range g.ops {
+			out := env.Exec(line)
+			if out != g.outs[i] {
+				g.mon.viol = append(g.mon.viol, Violation{Property: "C06", Class: "output-differs-between-replays", History: g.mon.history, OpIndex: i,
+					Detail: fmt.Sprintf("op %q gave %q in the first run and %q in replay %d", line, g.outs[i], out, rep+1)})
+				return
+			}
+			if k < len(g.digestAt) && g.digestAt[k] == i {
+				if env.inited && !env.dead {
+					if d := env.StateDigest(); d != g.digests[k] {
+						g.mon.viol = append(g.mon.viol, Violation{Property: "C06", Class: "state-differs-between-replays", History: g.mon.history, OpIndex: i,
+							Detail: fmt.Sprintf("after op %q the store/event digest is %s in the first run and %s in replay %d", line, g.digests[k], d, rep+1)})
+						return
+					}
+				}
+				k++
+			}
+		}
+		stats["det:replays"]++
+	}
 }
